@@ -116,7 +116,14 @@ func (r *Reader) IndexAtChunk() uint32 {
 
 // Int reads a int value of any size.
 func (r *Reader) Int() int {
-	return int(r.Uint())
+	switch r.i1 - r.i0 {
+	case 2:
+		return int(r.Int16())
+	case 4:
+		return int(r.Int32())
+	default:
+		return int(r.Uint())
+	}
 }
 
 // Uint reads a uint value of any size.
